@@ -187,7 +187,7 @@ def origins(db, f, expr, depth=3, _seen=None):
         if k == "MethodCall" and e["method"] in ("iter", "iter_mut", "into_iter", "get", "get_mut", "as_slice",
                                                   "as_ref", "as_mut", "unwrap", "expect", "copied", "cloned",
                                                   "to_owned", "clone", "deref", "borrow", "enumerate", "rev",
-                                                  "unwrap_or", "unwrap_or_default", "first", "last", "as_str", "as_bytes", "as_deref", "as_path"):
+                                                  "unwrap_or", "unwrap_or_default", "first", "last", "as_str", "as_bytes", "as_deref", "as_path", "len"):
             out |= origins(db, f, e["recv"], depth, _seen)
         return out
     if k == "Index":
